@@ -343,6 +343,12 @@ func extraCommand(name string, args []string) bool {
 	case "c05":
 		cmdC05(args)
 		return true
+	case "c13":
+		cmdC13(args)
+		return true
+	case "c01x":
+		cmdC01x(args)
+		return true
 	case "c03":
 		cmdC03(args)
 		return true
